@@ -625,8 +625,18 @@ func derivesFromParams(v ssa.Value, depth int) bool {
 
 // isTypesConverter: an exported free function of x/<module>/types named New…From… / …To… that converts between representations.
 func (p *Prog) isTypesConverter(fn *ssa.Function) bool {
-	if fn.Signature.Recv() != nil || !strings.HasSuffix(pkgPathOf(fn), "/types") || !strings.HasPrefix(pkgPathOf(fn), ModPath+"/x/") {
+	if !strings.HasSuffix(pkgPathOf(fn), "/types") || !strings.HasPrefix(pkgPathOf(fn), ModPath+"/x/") {
 		return false
+	}
+	if rv := fn.Signature.Recv(); rv != nil {
+		// a hand-written accessor of a query request ("the decoded form of this field"): request validation moved onto the
+		// request type
+		t := rv.Type()
+		if pt, ok := t.(*types.Pointer); ok {
+			t = pt.Elem()
+		}
+		nn, ok := t.(*types.Named)
+		return ok && strings.HasPrefix(nn.Obj().Name(), "Query") && strings.HasSuffix(nn.Obj().Name(), "Request") && !p.IsGenerated(fn) && strings.HasPrefix(fn.Name(), "Decode")
 	}
 	n := fn.Name()
 	if !strings.HasPrefix(n, "New") {
@@ -711,6 +721,18 @@ func (p *Prog) firstFailureRunner(fn *ssa.Function) bool {
 
 // sliceLiteralElems: the element values of a slice built in place (variadic arguments or a composite literal).
 func sliceLiteralElems(v ssa.Value) ([]ssa.Value, bool) {
+	// the literal may be what a list helper of the module returns (one return, of a slice literal)
+	if c, isCall := v.(*ssa.Call); isCall {
+		if g := c.Call.StaticCallee(); g != nil && InModule(g) && g.Blocks != nil {
+			rets := returnsOf(g)
+			if len(rets) == 1 && len(rets[0].Results) == 1 {
+				if _, again := rets[0].Results[0].(*ssa.Call); !again {
+					return sliceLiteralElems(rets[0].Results[0])
+				}
+			}
+		}
+		return nil, false
+	}
 	sl, ok := v.(*ssa.Slice)
 	if !ok {
 		return nil, false
@@ -806,4 +828,91 @@ func (fa *Facts) checkClosureSuccess(o *Origin, e ssa.Value, depth int) *Formula
 		return fa.successOfBody(mc.Fn.(*ssa.Function), sub, depth)
 	}
 	return nil
+}
+
+// thinHandlerBody: a MsgServer method that is only a gRPC adapter — it unwraps the context, hands its message to exactly one
+// hand-written function of the module ("thin message server, fat keeper"), returns that function's error when it fails and an
+// empty response when it succeeds — is analysed through that function: the state transition lives there. Anything else in the
+// adapter (a second module call, a store access, a condition other than the error test) keeps the method itself as the handler.
+func (p *Prog) thinHandlerBody(fn *ssa.Function) *ssa.Function {
+	if fn == nil || fn.Blocks == nil || len(fn.Blocks) > 4 || len(fn.Params) < 3 {
+		return fn
+	}
+	msg := fn.Params[len(fn.Params)-1]
+	var call *ssa.Call
+	for _, b := range fn.Blocks {
+		for _, in := range b.Instrs {
+			switch x := in.(type) {
+			case *ssa.Call:
+				if _, isB := x.Call.Value.(*ssa.Builtin); isB {
+					return fn
+				}
+				g := x.Call.StaticCallee()
+				if g == nil {
+					return fn
+				}
+				if strings.HasSuffix(FuncName(g), "sdk/types.UnwrapSDKContext") {
+					continue
+				}
+				if !InModule(g) || p.IsGenerated(g) || g.Blocks == nil || call != nil {
+					return fn
+				}
+				call = x
+			case *ssa.Defer, *ssa.Go, *ssa.MapUpdate, *ssa.Send, *ssa.Panic:
+				return fn
+			case *ssa.Store:
+				if al, _ := rootAlloc(x.Addr); al == nil {
+					return fn
+				}
+			case *ssa.If:
+				// the only branch: the error of the delegate
+				bo, ok := x.Cond.(*ssa.BinOp)
+				if !ok || call == nil {
+					return fn
+				}
+				e := bo.X
+				if isNilConst(e) {
+					e = bo.Y
+				}
+				src := unspill(e)
+				if ex, isEx := src.(*ssa.Extract); isEx {
+					src = ex.Tuple
+				}
+				if src != ssa.Value(call) {
+					return fn
+				}
+			}
+		}
+	}
+	if call == nil {
+		return fn
+	}
+	g := resolveBound(call.Call.StaticCallee())
+	// the message goes to the delegate unchanged, and the delegate's last result is an error
+	passes := false
+	for _, a := range call.Call.Args {
+		if a == ssa.Value(msg) {
+			passes = true
+		}
+	}
+	res := g.Signature.Results()
+	if !passes || res.Len() == 0 || !isErrorType(res.At(res.Len()-1).Type()) {
+		return fn
+	}
+	// every success return of the adapter lies behind err == nil of the delegate: checked through the single If above plus the
+	// return shapes (a failing return hands back the delegate's error)
+	for _, ret := range returnsOf(fn) {
+		ev := unspill(ret.Results[len(ret.Results)-1])
+		if isNilConst(ev) {
+			continue
+		}
+		src := ev
+		if ex, isEx := src.(*ssa.Extract); isEx {
+			src = ex.Tuple
+		}
+		if src != ssa.Value(call) {
+			return fn
+		}
+	}
+	return g
 }
